@@ -131,9 +131,24 @@ def check_1d(case, ctx: Ctx):
         require(h.find_bin(hi) == len(ps) - 1, "superfluous_right_bin", f"{step}: max {hi!r} last bins {ps[-2:]}")
 
     invariant("after construction")
+    if case.get("peek_first"):
+        ctx.maybe(lambda: getattr(h, case["peek_first"]))
+        ctx.label("peek_first")
+        if not values:
+            ctx.label("peek_on_empty")
+            special = True
     for k, op in enumerate(case["ops"]):
         edges_now = [float(x) for x in h.numpy_bins] if h.bin_count else []
         first, last = (edges_now[0], edges_now[-1]) if edges_now else (None, None)
+        if op[0] == "peek":
+            # reading public attributes at any time (also on the still empty histogram) must not change behaviour
+            ctx.maybe(lambda: getattr(h, op[1]))
+            ctx.label("peek")
+            if not values:
+                ctx.label("peek_on_empty")
+                special = True
+            invariant(f"step {k} peek {op[1]}")
+            continue
         if op[0] == "fill":
             v = resolve_value(op[1], w, edges_now)
             wt = op[2]
@@ -208,6 +223,8 @@ def histories_1d(draw, tier="quick"):
 
     @st.composite
     def op(draw):
+        if draw(st.integers(0, 7)) == 0:
+            return ["peek", draw(st.sampled_from(["bins", "numpy_bins", "bin_left_edges", "bin_widths", "bin_centers", "densities", "edges", "total_width"]))]
         if draw(st.booleans()):
             return ["fill", draw(val), draw(wgt)]
         vs = draw(st.lists(val, max_size=6))
@@ -221,7 +238,8 @@ def histories_1d(draw, tier="quick"):
 
     prefill = draw(st.one_of(st.none(), st.lists(value_specs(30, allow_edge=False), min_size=1, max_size=6)))
     ops = draw(st.lists(op(), min_size=1, max_size=14 if tier == "thorough" else 8))
-    return {"w": w, "align": align, "shift": shift, "prefill": prefill, "ops": ops}
+    peek_first = draw(st.sampled_from([None, None, "bins", "bin_widths", "bin_centers", "bin_left_edges", "densities"]))
+    return {"w": w, "align": align, "shift": shift, "prefill": prefill, "ops": ops, "peek_first": peek_first}
 
 
 # ---------------------------------------------------------------------------------
@@ -277,8 +295,22 @@ def check_nd(case, ctx: Ctx):
             require(model.locate(axes_pairs[j], max(col), False) == len(axes_pairs[j]) - 1, "superfluous_right_bin", f"{step} axis {j}")
 
     invariant("after construction")
+    if case.get("peek_first"):
+        ctx.maybe(lambda: getattr(h, case["peek_first"]))
+        ctx.label("peek_first")
+        if not rows:
+            ctx.label("peek_on_empty")
+            special = True
     for k, op in enumerate(case["ops"]):
         edges_now = [[float(x) for x in b.numpy_bins] if b.bin_count else [] for b in h.binnings]
+        if op[0] == "peek":
+            ctx.maybe(lambda: getattr(h, op[1]))
+            ctx.label("peek")
+            if not rows:
+                ctx.label("peek_on_empty")
+                special = True
+            invariant(f"step {k} peek {op[1]}")
+            continue
         if op[0] == "fill":
             row = [resolve_value(s, ws_[j], edges_now[j]) for j, s in enumerate(op[1])]
             wt = op[2]
@@ -333,6 +365,8 @@ def histories_nd(draw, tier="quick"):
 
     @st.composite
     def op(draw):
+        if draw(st.integers(0, 7)) == 0:
+            return ["peek", draw(st.sampled_from(["bins", "edges", "bin_sizes", "densities", "total_size", "shape"]))]
         if draw(st.booleans()):
             return ["fill", draw(row), draw(wgt)]
         rs = draw(st.lists(row, max_size=5))
@@ -347,7 +381,7 @@ def histories_nd(draw, tier="quick"):
     pre_row = st.lists(value_specs(max_k, allow_edge=False), min_size=d, max_size=d)
     prefill = draw(st.one_of(st.none(), st.lists(pre_row, min_size=1, max_size=4)))
     ops = draw(st.lists(op(), min_size=1, max_size=10 if tier == "thorough" else 6))
-    return {"w": ws_, "prefill": prefill, "ops": ops}
+    return {"w": ws_, "prefill": prefill, "ops": ops, "peek_first": draw(st.sampled_from([None, None, "bins", "bin_sizes", "densities"]))}
 
 
 # ---------------------------------------------------------------------------------
